@@ -7,6 +7,7 @@
    Output: one line per op. */
 #define _GNU_SOURCE
 #include <stdio.h>
+#include <poll.h>
 #include <stdlib.h>
 #include <string.h>
 #include <errno.h>
@@ -116,8 +117,12 @@ int main(int ac, char **av){
             }
             close(pfd[1]); close(efd[1]);
             static unsigned char obuf[1 << 20], ebuf[1 << 16]; int ol = 0, el = 0, n;
-            while ((n = __real_read(pfd[0], obuf + ol, sizeof obuf - ol - 1)) > 0) ol += n;
-            while ((n = __real_read(efd[0], ebuf + el, sizeof ebuf - el - 1)) > 0) el += n;
+            /* both pipes are drained to their ends, together (a child that writes more than a pipe-full to one of them must not
+               wait for us); what does not fit the buffers is read and dropped */
+            { struct pollfd pf[2] = { { pfd[0], POLLIN, 0 }, { efd[0], POLLIN, 0 } }; int open_ = 2; static unsigned char sink[1 << 16];
+              while (open_ > 0) { if (poll(pf, 2, -1) < 0) break;
+                if (pf[0].fd >= 0 && pf[0].revents) { int room = (int)sizeof obuf - ol - 1; n = __real_read(pfd[0], room > 0 ? obuf + ol : sink, room > 0 ? room : (int)sizeof sink); if (n <= 0) { pf[0].fd = -1; open_--; } else if (room > 0) ol += n; }
+                if (pf[1].fd >= 0 && pf[1].revents) { int room = (int)sizeof ebuf - el - 1; n = __real_read(efd[0], room > 0 ? ebuf + el : sink, room > 0 ? room : (int)sizeof sink); if (n <= 0) { pf[1].fd = -1; open_--; } else if (room > 0) el += n; } } }
             close(pfd[0]); close(efd[0]);
             int st; waitpid(pid, &st, 0);
             printf("M ");
